@@ -270,6 +270,9 @@ func init() {
 						"usesstartlay.tw":      "@use(\"~startlay\")@insert(\"body\", \"B\")",
 						"components/startc.tw": t + "|C",
 						"usesstartc.tw":        "[@component(\"~startc\")][@component(\"~startc\")]",
+						// a page of no bytes at all is a page: it renders to nothing
+						"empty.tw":     "",
+						"sub/empty.tw": "",
 					}
 					tpl, err := loadTree(c, "c05tree", files, ".tw")
 					c.Nontrivial("files:" + t)
@@ -289,6 +292,16 @@ func init() {
 					want["startpage"] = out + "|rest"
 					want["usesstartlay"] = out + "|B"
 					want["usesstartc"] = "[" + out + "|C][" + out + "|C]"
+					want["empty"], want["sub/empty"] = "", ""
+					// the same files through the file API
+					for file, w := range map[string]string{"startpage.tw": out + "|rest", "plain.tw": "<" + out + ">", "empty.tw": "", "components/startc.tw": out + "|C"} {
+						var fout string
+						var ferr error
+						c.Eval(1)
+						if !c.Guard(func() { fout, ferr = textwire.EvaluateFile("c05tree/"+file, nil) }) && (ferr != nil || fout != w) {
+							c.Violation("text-through-files:evaluate-file", fmt.Sprintf("EvaluateFile(%s) gave (%q, %v), want %q", file, fout, ferr, w), map[string]any{"text": t, "files": describeFiles(files)})
+						}
+					}
 					// a text run between a component and a slot directive is text unless it is only blanks:
 					// whatever the slot then means, the run itself must come out
 					if strings.Trim(t, " \t\r\n") != "" {
@@ -296,7 +309,7 @@ func init() {
 							c.Violation("text-through-files:gapslot", fmt.Sprintf("the text between @component(...) and @slot is missing from %q", got.Out), map[string]any{"text": t, "files": describeFiles(files)})
 						}
 					}
-					for _, page := range []string{"plain", "withlayout", "withcomp", "gap", "startpage", "usesstartlay", "usesstartc"} {
+					for _, page := range []string{"plain", "withlayout", "withcomp", "gap", "startpage", "usesstartlay", "usesstartc", "empty", "sub/empty"} {
 						got, _ := renderPage(c, tpl, page, nil)
 						if got.Panicked {
 							continue
